@@ -794,7 +794,47 @@ func genCRS(t *rapid.T) json.RawMessage {
 	return json.RawMessage(`{"type":` + typ + `,"properties":` + props + `}`)
 }
 
+// genBigCollection: a GeometryCollection or FeatureCollection of 60-300 small
+// members, none to three of them unusable (null, a type without coordinates, a
+// wrong type, a wrong JSON type) at drawn positions.
+func genBigCollection(t *rapid.T) DCase {
+	n := rapid.SampledFrom([]int{60, 63, 64, 65, 100, 127, 128, 129, 200, 256, 257, 300}).Draw(t, "bign")
+	if rapid.Bool().Draw(t, "bignany") {
+		n = rapid.IntRange(60, 300).Draw(t, "bignv")
+	}
+	feats := rapid.Bool().Draw(t, "bigfeatures")
+	good := func(i int) string {
+		g := fmt.Sprintf(`{"type":"Point","coordinates":[%d,%d]}`, i, -i)
+		if i%7 == 3 {
+			g = fmt.Sprintf(`{"type":"LineString","coordinates":[[%d,0],[0,%d]]}`, i, i)
+		}
+		if feats {
+			return `{"type":"Feature","geometry":` + g + `,"properties":null}`
+		}
+		return g
+	}
+	members := make([]string, n)
+	for i := range members {
+		members[i] = good(i)
+	}
+	for k := rapid.IntRange(0, 3).Draw(t, "nbad"); k > 0; k-- {
+		i := rapid.IntRange(0, n-1).Draw(t, "badat")
+		bad := rapid.SampledFrom([]string{`null`, `{"type":"Point"}`, `{"type":"Nope","coordinates":[1,2]}`, `{"type":"Point","coordinates":[1]}`, `{"type":"Polygon","coordinates":[[1,2]]}`, `7`, `[]`, `{"type":"LineString","coordinates":[[1,2],[3]]}`, `{"type":"GeometryCollection","geometries":[{"type":"Point"}]}`}).Draw(t, "bad")
+		if feats && rapid.Bool().Draw(t, "badinfeature") {
+			bad = `{"type":"Feature","geometry":` + bad + `,"properties":null}`
+		}
+		members[i] = bad
+	}
+	if feats {
+		return DCase{Class: "big-featurecollection", Data: []byte(`{"type":"FeatureCollection","features":[` + strings.Join(members, ",") + `]}`)}
+	}
+	return DCase{Class: "big-collection", Data: []byte(`{"type":"GeometryCollection","geometries":[` + strings.Join(members, ",") + `]}`)}
+}
+
 func genDCase(t *rapid.T) DCase {
+	if rapid.IntRange(0, 24).Draw(t, "big") == 0 {
+		return genBigCollection(t)
+	}
 	var doc map[string]json.RawMessage
 	class := rapid.SampledFrom([]string{"geometry", "geometry", "feature", "collection"}).Draw(t, "dclass")
 	var base []byte
